@@ -119,6 +119,10 @@ func (ctx *parseContext) resolveImport(node Node, name string, expansionDepth in
 	return nodes, nil
 }
 
+// maxMacroArgs is the maximum amount of arguments a directive can have
+// after expansion of macros in it.
+const maxMacroArgs = 10000
+
 func (ctx *parseContext) expandMacros(node *Node) error {
 	if strings.HasPrefix(node.Name, "$(") && strings.HasSuffix(node.Name, ")") {
 		return ctx.Err("can't use macro argument as directive name")
@@ -147,6 +151,12 @@ func (ctx *parseContext) expandMacros(node *Node) error {
 		}
 
 		newArgs = append(newArgs, replacement...)
+
+		// A macro defined as several references of another macro multiplies
+		// the amount of arguments with each definition.
+		if len(newArgs) > maxMacroArgs {
+			return ctx.Err("too many arguments after macro expansion")
+		}
 	}
 	node.Args = newArgs
 
